@@ -17,6 +17,18 @@ EQ_OF = {'shepard': 'InterpolateFunction', 'sph': 'InterpolateSPH', 'splash': 'S
          'splash_norm': 'SPLASHInterpolatePropertyNormalized', 'order1': 'SPHFirstOrderApproximation'}
 
 
+KEEP_INT = ('_create_nnps', '_create_particle_array', '_compile_acceleration_eval', '_get_max_h_in_arrays', '_set_particle_arrays', '_create_default_points')
+_INT_CACHE = {}
+
+
+def interp_class(tree):
+    """the Interpolator class with private helpers (other than the ones the rules refer to) inlined at their call sites"""
+    if id(tree) not in _INT_CACHE:
+        raw = M.find_class(tree, 'Interpolator')
+        _INT_CACHE[id(tree)] = M.inlined_class(raw, keep=set(KEEP_INT) | set(n_ for n_ in M.methods(raw) if not n_.startswith('_')))
+    return _INT_CACHE[id(tree)]
+
+
 def U(n):
     return M.unparse(n)
 
@@ -168,23 +180,34 @@ def fold_ok(f_):
 
 
 def rule_sources(chk, tree):
-    icls = M.find_class(tree, 'Interpolator')
+    icls = interp_class(tree)
     fn = M.find_func(icls, '_compile_acceleration_eval')
     nd = [a for a in ast.walk(fn) if isinstance(a, ast.Assign) and compact(a.targets[0]) == 'names']
     ok = bool(nd) and compact(nd[0].value) == '[x.nameforxinself.particle_arrays]'
     chk.decide(ok, 'all-arrays-are-sources', 'names', node=nd[0] if nd else fn, file=INT, func='_compile_acceleration_eval',
                detail_bad='the source list is %s, not the names of all particle arrays' % (U(nd[0].value) if nd else None), detail_ok='all particle array names')
     n = 0
+    from verif_static import norm as N_
+    M.set_parents(fn)
+    ldefs = N_.local_defs([fn])
+    NAMES = '[x.nameforxinself.particle_arrays]'
+
+    def res(e):
+        return compact(N_.inline(e, ldefs))
     for c in M.calls(fn):
         nm = M.call_name(c) or ''
         if nm in EQ_OF.values() or nm in ('SPHFirstOrderApproximationPreStep', 'SummationDensity'):
-            kw = dict((k.arg, compact(k.value)) for k in c.keywords)
+            kwv = dict((k.arg, k.value) for k in c.keywords)
+            kw = dict((k, res(v)) for k, v in kwv.items())
             n += 1
             if nm == 'SummationDensity':
-                ok = kw.get('sources') == 'names' and kw.get('dest') == 'name'
+                # one per source array: built in a comprehension / loop over the names, dest = the loop variable
+                comp_ = M.enclosing(c, (ast.ListComp, ast.GeneratorExp, ast.For))
+                it_ = comp_.generators[0] if isinstance(comp_, (ast.ListComp, ast.GeneratorExp)) else comp_
+                ok = kw.get('sources') == NAMES and comp_ is not None and res(it_.iter) == NAMES and isinstance(kwv.get('dest'), ast.Name) and compact(it_.target) == kwv['dest'].id
                 want = "dest=name (each source array), sources=names"
             else:
-                ok = kw.get('sources') == 'names' and kw.get('dest') == "'interpolate'"
+                ok = kw.get('sources') == NAMES and kw.get('dest') == "'interpolate'"
                 want = "dest='interpolate', sources=names"
             chk.decide(ok, 'all-arrays-are-sources', nm, node=c, file=INT, func='_compile_acceleration_eval',
                        detail_bad='%s(%s): expected %s - an array left out of the sources does not contribute to the interpolation' % (nm, kw, want), detail_ok=want)
@@ -238,7 +261,7 @@ def rule_sources(chk, tree):
 
 
 def rule_method_table(chk, tree):
-    icls = M.find_class(tree, 'Interpolator')
+    icls = interp_class(tree)
     methods = None
     for a in icls.body:
         if isinstance(a, ast.Assign) and compact(a.targets[0]) == 'METHODS':
@@ -285,7 +308,7 @@ def on_every_path(fn, call_texts):
 
 
 def rule_rebinding(chk, tree):
-    icls = M.find_class(tree, 'Interpolator')
+    icls = interp_class(tree)
     upa = M.find_func(icls, 'update_particle_arrays')
     g = C.build_cfg(upa)
     src = compact(upa)
@@ -329,17 +352,37 @@ def rule_rebinding(chk, tree):
                detail_ok='update_domain (optional) then update')
     # interpolate: property staged into temp_prop of EVERY array before compute
     ip = M.find_func(icls, 'interpolate')
-    g3 = C.build_cfg(ip)
-    comp = [n.id for n in g3.nodes if n.ast is not None and isinstance(n.ast, ast.Expr) and M.call_name(n.ast.value) == 'self.func_eval.compute']
-    loops = [l for l in ast.walk(ip) if isinstance(l, ast.For) and compact(l.iter) == 'self.particle_arrays']
-    ok = bool(comp and loops)
-    if ok:
+    # decided per path (path-local names substituted): every source array gets, before the evaluation, temp_prop[:] = its own values of the property (all particles) or 0.0 when it lacks it
+    from verif_static import paths as PT
+    pname = [a_ for a_ in M.arg_names(ip) if a_ != 'self'][0]
+    loops = [l for l in ast.walk(ip) if isinstance(l, ast.For) and compact(l.iter) == 'self.particle_arrays' and isinstance(l.target, ast.Name)]
+    ok = False
+    if loops:
         l = loops[0]
-        st = [a for a in ast.walk(l) if isinstance(a, ast.Assign) and compact(a.targets[0]) == "array.get('temp_prop',only_real_particles=False)[:]"]
-        dat = [a for a in ast.walk(l) if isinstance(a, ast.Assign) and compact(a.targets[0]) == 'data']
-        vals = sorted(compact(a.value) for a in dat)
-        ok = bool(st) and compact(st[0].value) == 'data' and vals == ['0.0', 'array.get(prop,only_real_particles=False)'] and \
-            g3.dominates(g3.node_of(l), comp[0]) and M.enclosing(st[0], (ast.If,)) is None
+        av = l.target.id
+        ok = True
+        seen_has = seen_not = False
+        for q_ in PT.enumerate_paths(list(l.body)):
+            sto = [(i, tg, v) for i, tg, v in PT.stores_on(q_) if tg.replace(' ', '') in ("%s.get('temp_prop',only_real_particles=False)[:]" % av,)]
+            has = PT.took(q_, True, '%s in %s.properties' % (pname, av)) is not None
+            hasnot = PT.took(q_, False, '%s in %s.properties' % (pname, av)) is not None
+            if len(sto) != 1 or not (has or hasnot):
+                ok = False
+                continue
+            val = sto[0][2]
+            if has:
+                seen_has = True
+                ok = ok and compact(val) == '%s.get(%s,only_real_particles=False)' % (av, pname)
+            else:
+                seen_not = True
+                ok = ok and isinstance(val, ast.Constant) and val.value == 0
+        ok = ok and seen_has and seen_not
+        # ... and that happens before the evaluation
+        for p_ in PT.enumerate_paths(M.docstring_stripped(ip.body)):
+            li = [i for i, e in enumerate(p_) if e.kind == 'loop' and e.node is l]
+            ci = [i for i, c_, cal, env in PT.calls_on(p_) if cal == 'self.func_eval.compute']
+            if ci and (not li or min(ci) < max(li)):
+                ok = False
     chk.decide(ok, 'rebinding', 'interpolate:stage-property-of-every-array', node=ip, file=INT, func='interpolate',
                detail_bad='the property is not copied into temp_prop of every source array (all particles; 0 where the array lacks it) before the evaluation',
                detail_ok='temp_prop[:] = prop (or 0) for every array, then compute')
@@ -468,10 +511,38 @@ def rule_order1(chk, tree):
                           'gj_solve(aug, n, 1, res) and store res into d_prop[4*d_idx + i]', detail_ok='copy, augmented_matrix(.., n, 1, 4, ..), gj_solve(.., n, 1, res), store')
 
 
+def rule_own_evaluator(chk, tree):
+    """the compiled evaluator holds the arrays and the neighbour structure it was last bound to, so it belongs to one interpolator: whatever is stored in self.func_eval
+    is an AccelerationEval constructed by that very call (not looked up in a table shared between instances), and it is never published to a shared table;
+    the target coordinates are flattened in the order in which the result is reshaped (C order)"""
+    icls = interp_class(tree)
+    n = 0
+    for name, fn in sorted(M.methods(icls).items()):
+        for a in ast.walk(fn):
+            if isinstance(a, ast.Assign) and any(compact(t_) == 'self.func_eval' for t_ in a.targets):
+                n += 1
+                fresh = isinstance(a.value, ast.Call) and (M.call_name(a.value) or '').split('.')[-1] == 'AccelerationEval'
+                none_ = isinstance(a.value, ast.Constant) and a.value.value is None
+                chk.decide(fresh or none_, 'rebinding', 'evaluator-is-this-interpolators-own@%s' % name, node=a, file=INT, func='Interpolator.' + name,
+                           detail_bad='`%s`: the evaluator is taken from somewhere else than a construction in this call; an evaluator shared between interpolators computes on the arrays '
+                                      'and targets of whichever instance bound it last' % U(a), detail_ok='constructed here')
+            if isinstance(a, ast.Assign) and isinstance(a.value, ast.Attribute) and compact(a.value) == 'self.func_eval' and isinstance(a.targets[0], ast.Subscript):
+                chk.violated('rebinding', 'evaluator-not-shared@%s' % name, node=a, file=INT, func='Interpolator.' + name,
+                             detail='`%s` publishes this interpolator\'s evaluator in a table: another instance that picks it up computes on this one\'s arrays' % U(a))
+    chk.floor('assignments of the compiled evaluator', n, 2)
+    cpa = M.find_func(icls, '_create_particle_array')
+    rv = [c for c in M.calls(cpa) if isinstance(c.func, ast.Attribute) and c.func.attr in ('ravel', 'flatten', 'reshape')]
+    bad = [c for c in rv if any(k.arg == 'order' and not (isinstance(k.value, ast.Constant) and k.value.value == 'C') for k in c.keywords) or
+           (c.func.attr in ('ravel', 'flatten') and c.args and not (isinstance(c.args[0], ast.Constant) and c.args[0].value == 'C'))]
+    chk.decide(bool(rv) and not bad, 'target-points', 'flattened-in-the-order-the-result-is-reshaped', node=bad[0] if bad else cpa, file=INT, func='_create_particle_array',
+               detail_bad='`%s` flattens the target coordinates in memory order; interpolate() reshapes the flat result in C order, so for Fortran-ordered (or differently laid out) '
+                          'coordinate arrays result[i, j] is the value at another point' % (U(bad[0]) if bad else ''), detail_ok='C order on both sides')
+
+
 def rule_targets_and_groups(chk, tree):
     """the target points get h = max source h as a float for every point; densities of the sources are computed for ghosts too (periodic images) before they are used;
     the neighbour structure of an SPHEvaluator is rebuilt with the domain it was constructed with"""
-    icls = M.find_class(tree, 'Interpolator')
+    icls = interp_class(tree)
     cpa = M.find_func(icls, '_create_particle_array')
     gpa = [c for c in M.calls(cpa) if M.call_name(c) == 'get_particle_array']
     ok, why = False, 'no get_particle_array call'
@@ -596,6 +667,7 @@ def main(chk):
     rule_rebinding(chk, tree)
     rule_order1(chk, tree)
     rule_targets_and_groups(chk, tree)
+    rule_own_evaluator(chk, tree)
     chk.note("'splash' weights with WI (destination h) while 'splash_norm' uses WJ (source h); no formula is documented in the repository to compare with - noted, not judged")
     chk.assume("'order1': the per-pair identity gives M (p_i, grad p) = b exactly for linear fields; that the (dim+1) leading block is well conditioned, and XIJ[k] = 0 for k >= dim, are assumed; "
                "min/max bounds of Shepard values are numeric facts, not decided")
